@@ -2,6 +2,7 @@ package zygo
 
 import (
 	"bytes"
+	"encoding/json"
 	"fmt"
 	"github.com/shurcooL/go-goon"
 	"github.com/ugorji/go/codec"
@@ -98,6 +99,28 @@ func JsonToSexp(json []byte, env *Zlisp) (Sexp, error) {
 	return GoToSexp(iface, env)
 }
 
+// jsonQuote returns s as a JSON string literal.
+func jsonQuote(s string) string {
+	var buf bytes.Buffer
+	enc := json.NewEncoder(&buf)
+	enc.SetEscapeHTML(false)
+	if err := enc.Encode(s); err != nil {
+		return `""`
+	}
+	return strings.TrimSuffix(buf.String(), "\n")
+}
+
+// jsonKeyName gives the text used as the JSON member name for a hash key.
+func jsonKeyName(key Sexp) string {
+	switch k := key.(type) {
+	case *SexpStr:
+		return k.S
+	case *SexpSymbol:
+		return k.name
+	}
+	return key.SexpString(nil)
+}
+
 // sexp -> json
 func SexpToJson(exp Sexp) string {
 	switch e := exp.(type) {
@@ -106,14 +129,21 @@ func SexpToJson(exp Sexp) string {
 	case *SexpArray:
 		return e.jsonArrayHelper()
 	case *SexpSymbol:
-		return `"` + e.name + `"`
+		return jsonQuote(e.name)
+	case *SexpStr:
+		return jsonQuote(e.S)
+	case *SexpSentinel:
+		if e == SexpNull {
+			return "null"
+		}
+		return exp.SexpString(nil)
 	default:
 		return exp.SexpString(nil)
 	}
 }
 
 func (hash *SexpHash) jsonHashHelper() string {
-	str := fmt.Sprintf(`{"Atype":"%s", `, hash.TypeName)
+	str := `{"Atype":` + jsonQuote(hash.TypeName) + `, `
 
 	ko := []string{}
 	n := len(hash.KeyOrder)
@@ -122,11 +152,11 @@ func (hash *SexpHash) jsonHashHelper() string {
 	}
 
 	for _, key := range hash.KeyOrder {
-		keyst := key.SexpString(nil)
+		keyst := jsonQuote(jsonKeyName(key))
 		ko = append(ko, keyst)
 		val, err := hash.HashGet(nil, key)
 		if err == nil {
-			str += `"` + keyst + `":`
+			str += keyst + `:`
 			str += string(SexpToJson(val)) + `, `
 		} else {
 			panic(err)
@@ -135,7 +165,7 @@ func (hash *SexpHash) jsonHashHelper() string {
 
 	str += `"zKeyOrder":[`
 	for _, key := range ko {
-		str += `"` + key + `", `
+		str += key + `, `
 	}
 	if n > 0 {
 		str = str[:len(str)-2]
